@@ -75,22 +75,23 @@ OBLIGATIONS.append(Obligation(
     outside="the filter chain itself; Check ids with 64-byte fields; payloads beyond the bound (the accounting is by counters, not by content)"))
 # Index verification (index_hash.c) vs the one valid encoding of the decoded Blocks
 IH_UNITS = [S + "common/common.c", S + "common/vli_decoder.c", S + "common/vli_size.c", S + "check/check.c"]
-OBLIGATIONS.append(Obligation(
-    name="index_hash_exact", src="idxhash.c", func="harness_index_hash", units=IH_UNITS,
-    defs=["lzma_crc32=vstub_crc32"], qdefs=["KMAX=2", "VBITS=14", "CALLS=1"], tdefs=["KMAX=2", "VBITS=21", "CALLS=2"],
+for _nm, _tiers, _k, _calls, _unw, _to in [("index_hash_exact_1call", ("quick", "thorough"), 1, 0, 16, 600), ("index_hash_exact_sliced", ("thorough",), 1, 1, 16, 2400), ("index_hash_exact_2rec", ("thorough",), 2, 1, 20, 3600)]:
+  OBLIGATIONS.append(Obligation(
+    name=_nm, tiers=_tiers, src="idxhash.c", func="harness_index_hash", units=IH_UNITS,
+    defs=["lzma_crc32=vstub_crc32", "KMAX=%d" % _k, "VBITS=14", "CALLS=%d" % _calls],
     hdefs=["lzma_check_init=vstub_check_init2", "lzma_check_update=vstub_check_update2", "lzma_check_finish=vstub_check_finish2"],
-    qunwind=20, tunwind=28, timeout_q=400, timeout_t=3000, mem_gb=12,
-    unwindset=[("memcmp", "", 34), ("vstub_check_init2", "", 34), ("vstub_check_update2", "", 18), ("lzma_vli_decode", "", 10)],
+    unwind=_unw, timeout_q=_to, timeout_t=_to, mem_gb=14,
+    unwindset=[("lzma_vli_decode", "", 10), ("lzma_vli_size", "", 10), ("lzma_index_hash_decode", "^1", 5)],
     functions=["lzma_index_hash_init", "lzma_index_hash_append", "lzma_index_hash_decode", "hash_append",
                "lzma_index_hash_size", "lzma_vli_decode", "lzma_vli_size", "lzma_check_size"],
-    stubs=["lzma_crc32: additive chaining function seen by decoder and expected encoding alike (real CRC32: C14)",
+    stubs=["lzma_crc32: coverage tracker -- the value is the number of bytes fed so far if they were fed contiguously from the first Index byte, poisoned otherwise (real CRC32: C14)",
            "lzma_check_init/update/finish (the SHA-256 that summarises the Record list): exact recorder -- the 32-byte digest is the two (unpadded, uncompressed) pairs themselves, so digest equality is list equality"],
     desc="Index verification of the stream decoder (lzma_index_hash_append x K, then lzma_index_hash_decode): "
-         "for every K<=2 Blocks with arbitrary sizes and EVERY byte string offered as Index, in every slicing: "
+         "for every K<=%d Blocks with arbitrary sizes and EVERY byte string offered as Index, %s: " % (_k, "given in one call" if _calls == 0 else "cut at an arbitrary point into two calls") +
          "STREAM_END exactly when the bytes are the specified encoding of those Blocks (indicator, count, "
          "minimal VLIs, zero padding, CRC32), ending exactly after the CRC32; a proper prefix is OK "
          "(incomplete) with all input consumed; any differing byte is never accepted; "
          "lzma_index_hash_size() equals the size of that encoding; no out-of-bounds access",
-    bounds_q="K <= 2 Blocks, sizes < 2^14 (VLIs of 1-2 bytes), Index of <= 17 bytes + 1 extra byte, 2 symbolic cut points + final call",
-    bounds_t="sizes < 2^28 (VLIs of 1-4 bytes), 3 cut points",
+    bounds_q="K <= %d Block(s), sizes < 2^14 (VLIs of 1-2 bytes), every byte string of <= %d bytes as Index, %d symbolic cut point(s)" % (_k, 9 + 4 * _k, _calls),
     outside="more than two Records (the digest abstraction holds two); sizes beyond the bound (the full-range VLI decoder is decided in C06 vli_decode obligations)"))
+OBLIGATIONS += reuse("C03", r"lzma2_chunk_layer")   # corrupt LZMA2 chunk headers / sizes never accepted
